@@ -60,15 +60,23 @@ def P_C10 (caseSx obs : Sx) : Option String :=
     | _, _ => some "unparsable-observation"
   | .list (.atom "fmt1" :: _), .list [.atom "fmt1", _, _, _] => none
   | .list (.atom "cli" :: _), .list [.atom "cli", code, out, lib] =>
-    -- the command-line tool prints exactly the library's rendering of the file, and a newline
-    if !sxEq code (.atom "0") then some "cli-failed"
-    else match IdlObs.str out, IdlObs.str lib with
-      | some out, some lib =>
-        if out == lib ++ ['\n'] then none
+    -- the command-line tool accepts exactly the files the library accepts (whatever FILE is: a regular
+    -- file, /dev/stdin behind a pipe, a named pipe) and prints exactly the library's rendering, and a newline
+    match IdlObs.str out, lib with
+    | some out, .atom "-" =>
+      if sxEq code (.atom "0") then some "cli-accepted-a-file-the-library-rejects"
+      else if !out.isEmpty then some "cli-printed-output-for-a-rejected-file"
+      else none
+    | some out, lib =>
+      match IdlObs.str lib with
+      | some lib =>
+        if !sxEq code (.atom "0") then some "cli-failed-on-a-file-the-library-accepts"
+        else if out == lib ++ ['\n'] then none
         else if out.contains (Char.ofNat 0xFFFD) && !lib.contains (Char.ofNat 0xFFFD) then
           some "cli-output-differs-from-library-rendering:replacement-character"
         else some "cli-output-differs-from-library-rendering"
-      | _, _ => some "cli-accepted-a-file-the-library-rejects"
+      | none => some "unparsable-observation"
+    | none, _ => some "unparsable-observation"
   | .list (.atom "conc" :: _), .list (.atom "conc" :: rs) =>
     -- every rendering made while other threads were rendering equals the sequential one
     let bad := rs.filter fun r => match r with
